@@ -6,6 +6,15 @@ sys.path.insert(0, os.path.join(os.path.dirname(os.path.abspath(__file__)), ".."
 import common
 
 MUTATIONS = [
+    ("Catalog", "Catalog_small.cfg", "MShown(a) == IF Bits(a, 17, 1) = 1 THEN a - Bits(a, 18, 6) * 262144 + 16515072 ELSE a",
+     "MShown(a) == IF Bits(a, 17, 1) = 1 THEN a - Bits(a, 18, 6) * 262144 + 16711680 ELSE a", "sign extension ORs 0xFF0000"),
+    ("Disc", "Disc_small.cfg", "VolAllows(lba) == lba < reg.L", "VolAllows(lba) == lba <= reg.L", "Volume::Access bound off by one"),
+    ("Track", "Track_FM.cfg", "THEN /\\ yielded' = IF Reads(pos) /\\ faults[pos] = \"ok\" THEN Yield(pos) ELSE yielded",
+     "THEN /\\ yielded' = IF Reads(pos) THEN Yield(pos) ELSE yielded", "records with a bad CRC are yielded"),
+    ("Hfe3", "Hfe3_small.cfg", "thisop' = (IF b.o \\in {\"nop\", \"idx\"} THEN \"\" ELSE b.o)",
+     "thisop' = (IF b.o \\in {\"nop\", \"idx\"} \\/ AtBlockStart THEN \"\" ELSE b.o)", "pending opcode forgotten at a block start"),
+    ("Afsp", "Afsp_small.cfg", "MToken(c) == IF c = HASH THEN [k |-> \"any\"] ELSE IF c = STAR THEN [k |-> \"star\"]",
+     "MToken(c) == IF c = HASH \\/ c = 94 THEN [k |-> \"any\"] ELSE IF c = STAR THEN [k |-> \"star\"]", "'^' acts as a wildcard"),
     ("Storage", "Storage_small.cfg", "              /\\ ~Occ(Opp(n))\n", "", "physical policy ignores the opposite surface"),
     ("Identify", "Identify_small.cfg", "MWatford(x) == /\\ ~(x.start # 0 /\\ x.start = 2)", "MWatford(x) == /\\ ~(x.start # 0 /\\ x.start % 256 = 2)", "Watford guard compares the low byte only"),
     ("HostFs", "HostFs_small.cfg", "MRefused == HasSlash(Basename)", "MRefused == FALSE", "names with '/' are extracted"),
